@@ -533,3 +533,31 @@ func FieldsStored(fn *ssa.Function, tname string) map[string]ssa.Instruction {
 func (c *Ctx) FieldStoreAny(fn *ssa.Function, tf, glob, why string) {
 	c.StoreIs(fn, tf, glob, 1, why)
 }
+
+// FieldStoreIdx (K11): fn stores a value with canonical form valGlob into an
+// indexed element (slice/array) at least once.
+func (c *Ctx) FieldStoreIdx(fn *ssa.Function, valGlob, why string) {
+	if fn == nil {
+		return
+	}
+	fnName := load.QualName(fn)
+	n := 0
+	site := "-"
+	for _, b := range fn.Blocks {
+		for _, ins := range b.Instrs {
+			s, ok := ins.(*ssa.Store)
+			if !ok {
+				continue
+			}
+			if _, ok := s.Addr.(*ssa.IndexAddr); !ok {
+				continue
+			}
+			if Glob(valGlob, CanonD(s.Val, 9)) {
+				n++
+				site = c.At(s)
+			}
+		}
+	}
+	c.Sites += n
+	c.Check(n > 0, "K11", fnName, "an element store of `"+valGlob+"` exists", site, why)
+}
